@@ -87,6 +87,33 @@ fn metered<T>(f: impl FnOnce() -> T) -> (T, u64) {
     (r, PEAK.with(|p| p.get()).max(0) as u64)
 }
 
+//============ deterministic failure reporting ===============================
+
+/// Failures found inside parallel loops are collected with an enumeration
+/// index and reported in that order afterwards, so that the printed
+/// witnesses (first three per oracle) do not depend on thread timing and are
+/// the simplest ones.
+struct Fails { v: Mutex<Vec<(u64, &'static str, String, String)>> }
+
+impl Fails {
+    fn new() -> Self { Fails { v: Mutex::new(Vec::new()) } }
+    fn push(&self, order: u64, oracle: &'static str, wit: String, detail: String) {
+        self.v.lock().unwrap().push((order, oracle, wit, detail));
+    }
+    fn check(&self, order: u64, oracle: &'static str, wit: impl FnOnce() -> String, f: impl FnOnce() -> Result<(), String>) -> bool {
+        match guard(f) {
+            Ok(Ok(())) => true,
+            Ok(Err(d)) => { self.push(order, oracle, wit(), d); false }
+            Err(p) => { self.push(order, oracle, wit(), p); false }
+        }
+    }
+    fn flush(&self, ctx: &Ctx) {
+        let mut v = std::mem::take(&mut *self.v.lock().unwrap());
+        v.sort();
+        for (_, oracle, wit, detail) in v { ctx.fail(oracle, wit, detail) }
+    }
+}
+
 //============ small helpers =================================================
 
 const MAX: u64 = u64::MAX;
@@ -275,13 +302,15 @@ fn space_deltas(ctx: &Ctx) {
         "every sequence (all orders of every multiset) of up to N serials from {0,1,2,3,5,MAX-1,MAX} x every limit: return value and retained list of the real sort_and_verify_deltas vs. the reference (sort, keep newest `limit`, consecutive in Z); non-trivial = cases in which at least two deltas are retained (verdict not vacuous), measured on the model");
     let total = seq_count(7, max_len);
     let limits_ref = &limits;
+    let fails = Fails::new();
     par_for(total, |idx| {
         let mut ix = Vec::new();
         seq_at(7, max_len, idx, &mut ix);
         let serials: Vec<u64> = ix.iter().map(|&i| alphabet[i]).collect();
         let mut oc: BTreeMap<&'static str, u64> = BTreeMap::new();
         let mut nt = 0u64;
-        for &limit in limits_ref {
+        for (li, &limit) in limits_ref.iter().enumerate() {
+            let order = idx * 16 + li as u64;
             let (want_kept, want_ok) = model_deltas(&serials, limit);
             if want_kept.len() >= 2 { nt += 1 }
             *oc.entry(if want_kept.len() < 2 { "vacuous-success" } else if want_ok { "consecutive" } else { "gap-or-duplicate" }).or_insert(0) += 1;
@@ -292,16 +321,16 @@ fn space_deltas(ctx: &Ctx) {
                 (r, nf.deltas().iter().map(|d| d.serial()).collect::<Vec<u64>>())
             });
             match got {
-                Err(p) => ctx.fail("C09.deltas.verdict", wit(), format!("{p}; expected {want_ok} with retained {}", show_serials(&want_kept))),
+                Err(p) => fails.push(order, "C09.deltas.verdict", wit(), format!("{p}; expected {want_ok} with retained {}", show_serials(&want_kept))),
                 Ok((r, kept)) => {
                     // the property: success exactly when the retained deltas are consecutive
                     if r != consecutive(&kept) {
-                        ctx.fail("C09.deltas.verdict", wit(), format!("returned {r} but retained {} is {}consecutive", show_serials(&kept), if consecutive(&kept) { "" } else { "not " }));
+                        fails.push(order, "C09.deltas.verdict", wit(), format!("returned {r} but retained {} is {}consecutive", show_serials(&kept), if consecutive(&kept) { "" } else { "not " }));
                     } else if r != want_ok {
-                        ctx.fail("C09.deltas.verdict", wit(), format!("returned {r}, reference says {want_ok} (retained {})", show_serials(&want_kept)));
+                        fails.push(order, "C09.deltas.verdict", wit(), format!("returned {r}, reference says {want_ok} (retained {})", show_serials(&want_kept)));
                     }
                     if kept != want_kept {
-                        ctx.fail("C09.deltas.retained", wit(), format!("retained {} but the newest-{:?} of the sorted list is {}", show_serials(&kept), limit, show_serials(&want_kept)));
+                        fails.push(order, "C09.deltas.retained", wit(), format!("retained {} but the newest-{:?} of the sorted list is {}", show_serials(&kept), limit, show_serials(&want_kept)));
                     }
                 }
             }
@@ -310,6 +339,7 @@ fn space_deltas(ctx: &Ctx) {
         sp.nontrivial(nt);
         sp.merge_outcomes(&oc);
     });
+    fails.flush(ctx);
     // a notification whose delta list was dropped as oversized retains nothing
     {
         let nf = mk_notification(&[1, 5, 9]);
@@ -357,7 +387,8 @@ fn space_origins(ctx: &Ctx) {
     let sp = ctx.space("origins.has_matching_origins",
         "base URI x every assignment of 9 URIs (equal, case variant, no path, different, prefix-of, extension-of, port, suffix after '=', in-path) to the snapshot and to 0..N deltas: has_matching_origins vs. `every referenced URI has the base's authority text, ASCII case ignored`; non-trivial = assignments that mix matching and non-matching URIs");
     let h = Hash::from([7u8; 32]);
-    for base in bases {
+    let fails = Fails::new();
+    for (bi, base) in bases.into_iter().enumerate() {
         let base_uri = https(base);
         let base_auth = model_authority(base);
         let total = seq_count(k, max_deltas) * k;
@@ -371,7 +402,7 @@ fn space_origins(ctx: &Ctx) {
             sp.eval();
             if matches.iter().any(|m| *m) && !want { sp.nontrivial(1) }
             sp.outcome(if want { "all-match" } else { "some-foreign" });
-            ctx.check("C09.origins", || format!("base={base} snapshot={snap} deltas={ds:?}"), || {
+            fails.check(((bi as u64) << 40) | idx, "C09.origins", || format!("base={base} snapshot={snap} deltas={ds:?}"), || {
                 let nf = NotificationFile::new(Uuid::nil(), 1, UriAndHash::new(https(snap), h),
                     ds.iter().enumerate().map(|(i, u)| DeltaInfo::new(i as u64, https(u), h)).collect());
                 let got = nf.has_matching_origins(&base_uri);
@@ -380,6 +411,7 @@ fn space_origins(ctx: &Ctx) {
             });
         });
     }
+    fails.flush(ctx);
     sp.sample_str(|| format!("base={} snapshot={} deltas=[{}] -> expected false", bases[0], uris[0], uris[6]));
     sp.done(true, &format!("{} bases x 9 snapshot URIs x all delta sequences of length <= {max_deltas} over 9 URIs", bases.len()));
 }
@@ -424,15 +456,16 @@ fn space_rt_notification(ctx: &Ctx) {
     let sp = ctx.space("roundtrip.notification",
         "NotificationFile::new -> write_xml -> parse: (i) session{nil,max,fixed} x serial{0,1,2^63,MAX} x 7 snapshot URIs x 3 hashes x {0,1 delta}; (ii) every sequence of 0..3 deltas over serial{0,1,2,MAX-1,MAX} x URI x hash; (iii) a 6000-delta file (> 1 MB, each element small); non-trivial = values whose XML needed attribute escaping (contains '&'), measured on the written bytes");
     let nontriv = AtomicU64::new(0);
-    let run = |wit: &dyn Fn() -> String, nf: &NotificationFile| {
+    let fails = Fails::new();
+    let run = |order: u64, wit: &dyn Fn() -> String, nf: &NotificationFile| {
         sp.eval();
         match guard(|| roundtrip_notification(nf)) {
             Ok(Ok(xml)) => {
                 // "&" can only appear in the output as the start of an escape
                 if xml.contains(&b'&') { nontriv.fetch_add(1, Ordering::Relaxed); sp.outcome("escaped-uri") } else { sp.outcome("plain-uri") }
             }
-            Ok(Err(d)) => ctx.fail("C09.roundtrip.notification", wit(), d),
-            Err(p) => ctx.fail("C09.roundtrip.notification", wit(), p),
+            Ok(Err(d)) => fails.push(order, "C09.roundtrip.notification", wit(), d),
+            Err(p) => fails.push(order, "C09.roundtrip.notification", wit(), p),
         }
     };
     // (i) header product
@@ -440,7 +473,7 @@ fn space_rt_notification(ctx: &Ctx) {
     let mut n_hdr = 0u64;
     for sess in 0..3 { for &serial in &SERIALS { for su in 0..HTTPS_URIS.len() { for sh in 0..3 { for ds in [&one[..0], &one[..]] {
         n_hdr += 1;
-        run(&|| show_notification(sess, serial, su, sh, ds), &build_notification(sess, serial, su, sh, ds));
+        run(n_hdr, &|| show_notification(sess, serial, su, sh, ds), &build_notification(sess, serial, su, sh, ds));
     }}}}}
     // (ii) delta sequences
     let dserials: [u64; 5] = [0, 1, 2, MAX - 1, MAX];
@@ -454,13 +487,13 @@ fn space_rt_notification(ctx: &Ctx) {
         vec![(&full[..], 2, "all sequences of <= 2 deltas over 5 serials x 7 URIs x 3 hashes"), (&reduced[..], 3, "all sequences of <= 3 deltas over 5 serials x 4 URIs")]
     };
     let mut bound = vec![format!("{n_hdr} header combinations")];
-    for (alpha, max_len, text) in &plans {
+    for (pi, (alpha, max_len, text)) in plans.iter().enumerate() {
         let k = alpha.len() as u64;
         par_for(seq_count(k, *max_len), |idx| {
             let mut ix = Vec::new();
             seq_at(k, *max_len, idx, &mut ix);
             let ds: Vec<DeltaSpec> = ix.iter().map(|&i| alpha[i]).collect();
-            run(&|| show_notification(2, 5, 0, 2, &ds), &build_notification(2, 5, 0, 2, &ds));
+            run(((pi as u64 + 1) << 40) | idx, &|| show_notification(2, 5, 0, 2, &ds), &build_notification(2, 5, 0, 2, &ds));
         });
         bound.push(text.to_string());
     }
@@ -469,9 +502,10 @@ fn space_rt_notification(ctx: &Ctx) {
         let h = hashes()[2];
         let nf = NotificationFile::new(sessions()[2], 6000, UriAndHash::new(https(HTTPS_URIS[0]), h),
             (1..=6000u64).map(|i| DeltaInfo::new(i, https(&format!("https://h.example/{i:0100}/delta.xml")), h)).collect());
-        run(&|| "6000 deltas with 100-digit path segments (file > 1 MB)".to_string(), &nf);
+        run(9 << 40, &|| "6000 deltas with 100-digit path segments (file > 1 MB)".to_string(), &nf);
         bound.push("one 6000-delta file".into());
     }
+    fails.flush(ctx);
     sp.nontrivial(nontriv.load(Ordering::Relaxed));
     sp.sample_str(|| {
         let mut xml = Vec::new();
@@ -573,34 +607,35 @@ fn space_rt_snapshot(ctx: &Ctx) {
     let sess = sessions();
     let full = data_full();
     let mut bound: Vec<String> = Vec::new();
-    let run = |wit: &dyn Fn() -> String, s: Uuid, serial: u64, want: &[Seen], chunk: usize| {
+    let fails = Fails::new();
+    let run = |order: u64, wit: &dyn Fn() -> String, s: Uuid, serial: u64, want: &[Seen], chunk: usize| {
         sp.eval();
         sp.outcome(match want.len() { 0 => "0-elements", 1 => "1-element", 2 => "2-elements", _ => "3-elements" });
         if want.iter().any(|w| matches!(w, Seen::Publish { data, .. } if !data.is_empty())) { sp.nontrivial(1) }
-        ctx.check("C09.roundtrip.snapshot", wit, || roundtrip_snapshot(s, serial, want, chunk));
+        fails.check(order, "C09.roundtrip.snapshot", wit, || roundtrip_snapshot(s, serial, want, chunk));
     };
     // (i)
     let singles: Vec<(usize, DataSpec)> = (0..RSYNC_URIS.len()).flat_map(|u| full.iter().map(move |d| (u, *d))).collect();
-    singles.par_iter().for_each(|&(u, d)| {
+    singles.par_iter().enumerate().for_each(|(i, &(u, d))| {
         let want = [ElSpec::Publish { uri: u, data: d }.expect()];
-        for (si, s) in sess.iter().enumerate() { for &serial in &SERIALS {
+        for (si, s) in sess.iter().enumerate() { for (ni, &serial) in SERIALS.iter().enumerate() {
             // all chunk sizes with the first header, read_to_end with the others
             let chunks: &[usize] = if si == 0 && serial == 0 { &CHUNKS } else { &CHUNKS[..1] };
             for &chunk in chunks {
-                run(&|| format!("session#{si} serial={} chunk={chunk} [P({},{})]", show_serial(serial), RSYNC_URIS[u], d.show()), *s, serial, &want, chunk);
+                run(((i as u64) << 16) | ((si * 4 + ni) as u64) << 8 | chunk.min(255) as u64, &|| format!("session#{si} serial={} chunk={chunk} [P({},{})]", show_serial(serial), RSYNC_URIS[u], d.show()), *s, serial, &want, chunk);
             }
         }}
     });
     bound.push(format!("{} single elements x 12 headers (+6 extra chunk sizes on one header)", singles.len()));
     // empty snapshot with every header
     for (si, s) in sess.iter().enumerate() { for &serial in &SERIALS {
-        run(&|| format!("session#{si} serial={} []", show_serial(serial)), *s, serial, &[], 0);
+        run(1 << 39, &|| format!("session#{si} serial={} []", show_serial(serial)), *s, serial, &[], 0);
     }}
     // (ii)
     let mid: Vec<ElSpec> = [0usize, 2, 4].iter().flat_map(|&u| data_mid().into_iter().map(move |d| ElSpec::Publish { uri: u, data: d })).collect();
     let small: Vec<ElSpec> = [0usize, 3].iter().flat_map(|&u| data_small().into_iter().map(move |d| ElSpec::Publish { uri: u, data: d })).collect();
     let plans: Vec<(&[ElSpec], u32)> = if ctx.tier.is_thorough() { vec![(&mid[..], 3), (&small[..], 4)] } else { vec![(&mid[..], 2), (&small[..], 3)] };
-    for (alpha, max_len) in plans {
+    for (pi, (alpha, max_len)) in plans.into_iter().enumerate() {
         let k = alpha.len() as u64;
         par_for(seq_count(k, max_len), |idx| {
             let mut ix = Vec::new();
@@ -608,7 +643,7 @@ fn space_rt_snapshot(ctx: &Ctx) {
             let els: Vec<ElSpec> = ix.iter().map(|&i| alpha[i]).collect();
             let want: Vec<Seen> = els.iter().map(|e| e.expect()).collect();
             let chunk = CHUNKS[(idx % CHUNKS.len() as u64) as usize];
-            run(&|| format!("session#2 serial=2^63 chunk={chunk} [{}]", els.iter().map(|e| e.show()).collect::<Vec<_>>().join(" ")), sess[2], 1 << 63, &want, chunk);
+            run(((pi as u64 + 1) << 40) | idx, &|| format!("session#2 serial=2^63 chunk={chunk} [{}]", els.iter().map(|e| e.show()).collect::<Vec<_>>().join(" ")), sess[2], 1 << 63, &want, chunk);
         });
         bound.push(format!("all sequences of <= {max_len} elements over {k} element values"));
     }
@@ -616,14 +651,15 @@ fn space_rt_snapshot(ctx: &Ctx) {
     {
         let d600 = big_data(600_000);
         let want: Vec<Seen> = (0..3).map(|i| Seen::Publish { uri: rsync(&format!("rsync://h.example/m/big{i}.roa")), hash: None, data: d600.clone() }).collect();
-        run(&|| "3 publish elements of 600000 octets each (each element < 1 MB, file > 2 MB)".into(), sess[2], 7, &want, 0);
+        run(9 << 40, &|| "3 publish elements of 600000 octets each (each element < 1 MB, file > 2 MB)".into(), sess[2], 7, &want, 0);
         let want = vec![
             Seen::Publish { uri: rsync("rsync://h.example/m/big.roa"), hash: None, data: big_data(1_500_000) },
             Seen::Publish { uri: rsync("rsync://h.example/m/small.roa"), hash: None, data: vec![1, 2, 3] },
         ];
-        run(&|| "one publish element of 1500000 octets (> MAX_HEADER_SIZE, < MAX_FILE_SIZE) followed by a 3-octet one".into(), sess[2], 7, &want, 4096);
+        run(10 << 40, &|| "one publish element of 1500000 octets (> MAX_HEADER_SIZE, < MAX_FILE_SIZE) followed by a 3-octet one".into(), sess[2], 7, &want, 4096);
         bound.push("2 big files".into());
     }
+    fails.flush(ctx);
     sp.sample_str(|| {
         let mut xml = Vec::new();
         Snapshot::new(sess[2], 1, vec![PublishElement::new(rsync(RSYNC_URIS[4]), DataSpec { len: 4, pat: 2 }.bytes()), PublishElement::new(rsync(RSYNC_URIS[0]), Bytes::new())]).write_xml(&mut xml).unwrap();
@@ -639,13 +675,14 @@ fn space_rt_delta(ctx: &Ctx) {
     let sess = sessions();
     let full = data_full();
     let mut bound: Vec<String> = Vec::new();
-    let run = |wit: &dyn Fn() -> String, s: Uuid, serial: u64, els: &[ElSpec], chunk: usize| {
+    let fails = Fails::new();
+    let run = |order: u64, wit: &dyn Fn() -> String, s: Uuid, serial: u64, els: &[ElSpec], chunk: usize| {
         sp.eval();
         let mut kinds = [false; 3];
         for e in els { match e { ElSpec::Publish { .. } => kinds[0] = true, ElSpec::Update { .. } => kinds[1] = true, ElSpec::Withdraw { .. } => kinds[2] = true } }
         sp.outcome(match kinds { [false, false, false] => "empty", [true, false, false] => "publish-only", [false, true, false] => "update-only", [false, false, true] => "withdraw-only", _ => "mixed-kinds" });
         if els.iter().any(|e| e.has_data()) { sp.nontrivial(1) }
-        ctx.check("C09.roundtrip.delta", wit, || roundtrip_delta(s, serial, els, chunk));
+        fails.check(order, "C09.roundtrip.delta", wit, || roundtrip_delta(s, serial, els, chunk));
     };
     // (i)
     let mut singles: Vec<ElSpec> = Vec::new();
@@ -657,14 +694,14 @@ fn space_rt_delta(ctx: &Ctx) {
         }
     }
     singles.par_iter().enumerate().for_each(|(i, e)| {
-        for (si, s) in sess.iter().enumerate() { for &serial in &SERIALS {
+        for (si, s) in sess.iter().enumerate() { for (ni, &serial) in SERIALS.iter().enumerate() {
             let chunk = if si == 0 && serial == 0 { CHUNKS[i % CHUNKS.len()] } else { 0 };
-            run(&|| format!("session#{si} serial={} chunk={chunk} [{}]", show_serial(serial), e.show()), *s, serial, std::slice::from_ref(e), chunk);
+            run(((i as u64) << 8) | (si * 4 + ni) as u64, &|| format!("session#{si} serial={} chunk={chunk} [{}]", show_serial(serial), e.show()), *s, serial, std::slice::from_ref(e), chunk);
         }}
     });
     bound.push(format!("{} single elements x 12 headers", singles.len()));
     for (si, s) in sess.iter().enumerate() { for &serial in &SERIALS {
-        run(&|| format!("session#{si} serial={} []", show_serial(serial)), *s, serial, &[], 0);
+        run(1 << 39, &|| format!("session#{si} serial={} []", show_serial(serial)), *s, serial, &[], 0);
     }}
     // (ii)
     let alpha = |uris: &[usize], hs: &[usize], data: &[DataSpec]| -> Vec<ElSpec> {
@@ -681,21 +718,21 @@ fn space_rt_delta(ctx: &Ctx) {
     let mid = alpha(&[0, 2, 4], &[0, 2], &data_mid()[..6]);
     let small = alpha(&[0, 3], &[1, 2], &data_small());
     let plans: Vec<(&[ElSpec], u32)> = if ctx.tier.is_thorough() { vec![(&mid[..], 3), (&small[..], 4)] } else { vec![(&mid[..], 2), (&small[..], 3)] };
-    for (a, max_len) in plans {
+    for (pi, (a, max_len)) in plans.into_iter().enumerate() {
         let k = a.len() as u64;
         par_for(seq_count(k, max_len), |idx| {
             let mut ix = Vec::new();
             seq_at(k, max_len, idx, &mut ix);
             let els: Vec<ElSpec> = ix.iter().map(|&i| a[i]).collect();
             let chunk = CHUNKS[(idx % CHUNKS.len() as u64) as usize];
-            run(&|| format!("session#2 serial=MAX chunk={chunk} [{}]", els.iter().map(|e| e.show()).collect::<Vec<_>>().join(" ")), sess[2], MAX, &els, chunk);
+            run(((pi as u64 + 1) << 40) | idx, &|| format!("session#2 serial=MAX chunk={chunk} [{}]", els.iter().map(|e| e.show()).collect::<Vec<_>>().join(" ")), sess[2], MAX, &els, chunk);
         });
         bound.push(format!("all sequences of <= {max_len} elements over {k} element values"));
     }
     // (iii) big: built directly
     {
         sp.eval(); sp.nontrivial(1); sp.outcome("mixed-kinds");
-        ctx.check("C09.roundtrip.delta", || "update of 1500000 octets, withdraw, publish of 600000 octets, publish of 600000 octets".into(), || {
+        fails.check(9 << 40, "C09.roundtrip.delta", || "update of 1500000 octets, withdraw, publish of 600000 octets, publish of 600000 octets".into(), || {
             let h = hashes()[2];
             let els: Vec<DeltaElement> = vec![
                 UpdateElement::new(rsync("rsync://h.example/m/big.roa"), h, Bytes::from(big_data(1_500_000))).into(),
@@ -712,6 +749,7 @@ fn space_rt_delta(ctx: &Ctx) {
         });
         bound.push("1 big file".into());
     }
+    fails.flush(ctx);
     sp.sample_str(|| {
         let mut xml = Vec::new();
         Delta::new(sess[1], MAX, vec![ElSpec::Update { uri: 3, hash: 2, data: DataSpec { len: 2, pat: 1 } }.to_delta_element(), ElSpec::Withdraw { uri: 2, hash: 0 }.to_delta_element()]).write_xml(&mut xml).unwrap();
@@ -939,95 +977,99 @@ fn limit_at(kind: Kind, lay: &DocLayout, p: usize, run: &[u8]) -> u64 {
     if in_root_tag && run.contains(&b'>') { FILE_LIMIT } else { HEADER_LIMIT }
 }
 
-struct HostileStats { max_peak: AtomicU64, max_over: Mutex<(i64, String)> }
-
-/// One endless-run case: insertion at p of run r. Applies the oracles.
-fn hostile_case(ctx: &Ctx, sp: &Space, st: &HostileStats, kind: Kind, doc: &[u8], lay: &DocLayout, p: usize, r: &Run, block: &[u8], bufcap: usize) {
-    let limit = limit_at(kind, lay, p, r.unit);
-    let cap = p as u64 + 4 * limit;
-    let bound = lay.start[p] as u64 + limit + bufcap as u64;
-    let h = run_hostile(kind, &doc[..p], r.head, block, u64::MAX, b"", bufcap, cap);
-    let wit = || format!("{} pos={p} ({}) run={} endless bufcap={bufcap}", kind.name(), lay.class[p], r.name);
-    sp.eval();
-    st.max_peak.fetch_max(h.peak, Ordering::Relaxed);
-    {
-        let over = h.pulled as i64 - (lay.start[p] as u64 + limit) as i64;
-        let mut m = st.max_over.lock().unwrap();
-        if over > m.0 { *m = (over, wit()) }
-    }
-    let stopped_by_limit = h.pulled >= limit;
-    if stopped_by_limit { sp.nontrivial(1) }
-    match &h.result {
-        Err(panic) => { sp.outcome("panic"); ctx.fail("C09.hostile.nopanic", wit(), panic.clone()) }
-        Ok(Ok(_)) => sp.outcome(if stopped_by_limit { "ok-after-limit" } else { "ok-early" }),
-        Ok(Err(_)) => sp.outcome(if stopped_by_limit { "error-at-limit" } else { "error-early" }),
-    }
-    if h.cap_hit || h.pulled > bound {
-        ctx.fail("C09.hostile.bound", wit(), format!(
-            "pulled {} octets{}; allowed: start of the element {} + limit {} + one buffer {} = {}; result {:?}",
-            h.pulled, if h.cap_hit { " (generator cap of 4 x limit reached: the parse would not have stopped)" } else { "" },
-            lay.start[p], limit, bufcap, bound, h.result.as_ref().map(|r| r.as_ref().map_err(|e| trunc(e, 80)))));
-    }
-}
+/// One endless-run case: insertion at p of run kind ri through a BufReader of capacity bufcap.
+#[derive(Clone, Copy)]
+struct Case { kind: Kind, p: usize, ri: usize, bufcap: usize }
 
 fn space_hostile_endless(ctx: &Ctx) {
-    let sp = ctx.space("hostile.endless",
-        "skeleton document per file type x every byte offset as insertion point x run kind (24 kinds under the 1 MB header limit; 8 kinds where the 100 MB element limit applies) from a generator that never ends, read through counting reader + BufReader: no panic, and octets pulled <= start of the element containing the insertion + configured limit + BufReader capacity (generator capped at insertion + 4 x limit; reaching the cap is a violation); non-trivial = cases the parser only left because the limit tripped (pulled >= limit)");
-    let st = HostileStats { max_peak: AtomicU64::new(0), max_over: Mutex::new((i64::MIN, String::new())) };
-    let blocks: Vec<Vec<u8>> = RUNS.iter().map(|r| block_of(r.unit)).collect();
     let thorough = ctx.tier.is_thorough();
+    let sp = ctx.space("hostile.endless",
+        "skeleton document per file type x insertion offset x run kind from a generator that never ends, read through counting reader + BufReader: no panic, and octets pulled <= start of the element containing the insertion + configured limit + BufReader capacity (generator capped at insertion + 4 x limit; reaching the cap is a violation). quick: under the 1 MB limit every offset x 3 kinds + all 24 kinds at the first offset of every grammar item, under the 100 MB limit 3 kinds at the first offset of every grammar item; thorough: every offset x 24 kinds (1 MB, plus two more buffer sizes for 8 kinds) and every offset x 4 kinds + 8 kinds at item-first offsets (100 MB). non-trivial = cases the parser only left because the limit tripped (pulled >= limit)");
+    let blocks: Vec<Vec<u8>> = RUNS.iter().map(|r| block_of(r.unit)).collect();
     let mut bound: Vec<String> = Vec::new();
     let mut classes_seen: BTreeMap<&'static str, u64> = BTreeMap::new();
-    for kind in [Kind::Notification, Kind::Snapshot, Kind::Delta] {
-        let doc = skeleton(kind);
-        let lay = layout(&doc);
+    let mut max_peak = 0u64;
+    let mut max_over: (i64, String) = (i64::MIN, String::new());
+    let kinds = [Kind::Notification, Kind::Snapshot, Kind::Delta];
+    let docs: Vec<Vec<u8>> = kinds.iter().map(|k| skeleton(*k)).collect();
+    let lays: Vec<DocLayout> = docs.iter().map(|d| layout(d)).collect();
+    for (ki, kind) in kinds.into_iter().enumerate() {
+        let doc = &docs[ki];
+        let lay = &lays[ki];
         // bound 0: the skeleton itself must be accepted
-        match parse_as(kind, doc.as_slice()) {
-            Ok(_) => {}
-            Err(e) => ctx.machinery_error(format!("{} skeleton does not parse: {e}", kind.name())),
-        }
+        if let Err(e) = parse_as(kind, doc.as_slice()) { ctx.machinery_error(format!("{} skeleton does not parse: {e}", kind.name())) }
         for p in 0..=doc.len() { *classes_seen.entry(lay.class[p]).or_insert(0) += 1 }
-        // light cases: 1 MB limit, every offset x every run kind
-        let mut light: Vec<(usize, usize, usize)> = Vec::new();
-        let mut heavy: Vec<(usize, usize, usize)> = Vec::new();
-        let mut heavy_seen: BTreeMap<(&'static str, usize), ()> = BTreeMap::new();
+        let mut cases: Vec<Case> = Vec::new();
+        let (mut n_light, mut n_heavy) = (0u64, 0u64);
+        let mut first_seen: BTreeMap<(&'static str, usize), ()> = BTreeMap::new();
         for p in 0..=doc.len() {
-            if p <= lay.root_gt || kind == Kind::Notification {
-                for ri in 0..RUNS.len() { light.push((p, ri, 8192)) }
-                if thorough { for ri in HEAVY_RUNS { light.push((p, ri, 64)); light.push((p, ri, 1 << 16)) } }
-            } else if thorough {
-                for ri in HEAVY_RUNS { heavy.push((p, ri, 8192)) }
-            } else {
-                // quick: the first offset of each grammar class within each markup / text item
-                if heavy_seen.insert((lay.class[p], lay.item[p]), ()).is_none() {
-                    for ri in [0usize, 1, 3, 6] { heavy.push((p, ri, 8192)) }
+            let first = first_seen.insert((lay.class[p], lay.item[p]), ()).is_none();
+            let light = kind == Kind::Notification || p <= lay.root_gt;
+            let mut add = |ri: usize, bufcap: usize| {
+                if limit_at(kind, lay, p, RUNS[ri].unit) == HEADER_LIMIT { n_light += 1 } else { n_heavy += 1 }
+                cases.push(Case { kind, p, ri, bufcap });
+            };
+            if light {
+                if thorough {
+                    for ri in 0..RUNS.len() { add(ri, 8192) }
+                    for ri in HEAVY_RUNS { add(ri, 64); add(ri, 1 << 16) }
+                } else {
+                    for ri in 0..RUNS.len() { if first || [0usize, 1, 6].contains(&ri) { add(ri, 8192) } }
+                    if p % 8 == 0 { add(1, 64); add(6, 64) }
                 }
+            } else if thorough {
+                for ri in HEAVY_RUNS { if first || [0usize, 1, 6, 7].contains(&ri) { add(ri, 8192) } }
+            } else if first {
+                for ri in [0usize, 1, 6] { add(ri, 8192) }
             }
         }
-        if !thorough {
-            // a second buffer size on a sub-grid so that the bound's buffer term is exercised
-            for p in (0..=doc.len()).step_by(7) { if p <= lay.root_gt || kind == Kind::Notification { for ri in [0usize, 1, 6] { light.push((p, ri, 64)) } } }
+        // run in parallel, judge sequentially in enumeration order (deterministic output)
+        let results: Vec<Hostile> = cases.par_iter().map(|c| {
+            let r = &RUNS[c.ri];
+            let limit = limit_at(kind, lay, c.p, r.unit);
+            run_hostile(kind, &doc[..c.p], r.head, &blocks[c.ri], u64::MAX, b"", c.bufcap, c.p as u64 + 4 * limit)
+        }).collect();
+        let mut oc: BTreeMap<&'static str, u64> = BTreeMap::new();
+        let mut nt = 0u64;
+        for (c, h) in cases.iter().zip(&results) {
+            let r = &RUNS[c.ri];
+            let (p, bufcap) = (c.p, c.bufcap);
+            let limit = limit_at(kind, lay, p, r.unit);
+            let bound = lay.start[p] as u64 + limit + bufcap as u64;
+            let wit = || format!("{} pos={p} ({}) run={} endless bufcap={bufcap}", kind.name(), lay.class[p], r.name);
+            max_peak = max_peak.max(h.peak);
+            let over = h.pulled as i64 - (lay.start[p] as u64 + limit) as i64;
+            if over > max_over.0 { max_over = (over, wit()) }
+            let by_limit = h.pulled >= limit;
+            if by_limit { nt += 1 }
+            let class = match &h.result {
+                Err(panic) => { ctx.fail("C09.hostile.nopanic", wit(), panic.clone()); "panic" }
+                Ok(Ok(_)) => if by_limit { "ok-after-limit" } else { "ok-early" },
+                Ok(Err(_)) => if by_limit { "error-at-limit" } else { "error-early" },
+            };
+            *oc.entry(class).or_insert(0) += 1;
+            if h.cap_hit || h.pulled > bound {
+                ctx.fail("C09.hostile.bound", wit(), format!(
+                    "pulled {} octets{}; allowed: start of the element {} + limit {} + one buffer {} = {}; result {:?}",
+                    h.pulled, if h.cap_hit { " (generator cap of 4 x limit reached: the parse would not have stopped)" } else { "" },
+                    lay.start[p], limit, bufcap, bound, h.result.as_ref().map(|r| r.as_ref().map_err(|e| trunc(e, 80)))));
+            }
         }
-        light.par_iter().for_each(|&(p, ri, bc)| hostile_case(ctx, &sp, &st, kind, &doc, &lay, p, &RUNS[ri], &blocks[ri], bc));
-        heavy.par_iter().for_each(|&(p, ri, bc)| hostile_case(ctx, &sp, &st, kind, &doc, &lay, p, &RUNS[ri], &blocks[ri], bc));
-        bound.push(format!("{}: {} offsets, {} cases under the 1 MB limit, {} cases under the 100 MB limit", kind.name(), doc.len() + 1, light.len(), heavy.len()));
+        sp.evals(cases.len() as u64); sp.nontrivial(nt); sp.merge_outcomes(&oc);
+        bound.push(format!("{}: {} offsets, {n_light} streams under the 1 MB limit, {n_heavy} under the 100 MB limit", kind.name(), doc.len() + 1));
     }
     sp.set("grammar_classes_offsets", json!(classes_seen));
     sp.set("run_kinds", json!(RUNS.iter().map(|r| r.name).collect::<Vec<_>>()));
-    sp.set("max_peak_heap_octets_one_case", json!(st.max_peak.load(Ordering::Relaxed)));
-    {
-        let m = st.max_over.lock().unwrap();
-        sp.set("max_octets_pulled_beyond_start_plus_limit", json!({"octets": m.0, "case": m.1}));
-    }
-    sp.sample_str(|| "notification pos=0 run=space endless bufcap=8192: generator yields ' ' forever".into());
+    sp.set("max_peak_heap_octets_one_case", json!(max_peak));
+    sp.set("max_octets_pulled_beyond_start_plus_limit", json!({"octets": max_over.0, "case": max_over.1}));
+    sp.sample_str(|| "notification pos=0 run=space endless bufcap=8192: the generator yields ' ' forever".into());
     sp.sample_str(|| String::from_utf8_lossy(&skeleton(Kind::Snapshot)).into_owned());
-    let exhaustive_text = if thorough { "every offset x 24 kinds (1 MB) and x 8 kinds (100 MB), 3 buffer sizes under 1 MB" } else { "every offset x 24 kinds (1 MB); 100 MB limit only at the first offset of each grammar class per element x 4 kinds" };
-    sp.done(true, &format!("{exhaustive_text}; {}", bound.join("; ")));
+    sp.done(true, &bound.join("; "));
 }
 
 fn space_hostile_bombs(ctx: &Ctx) {
     let sp = ctx.space("hostile.bombs",
-        "the three emptied bomb files regenerated as finite streams (giant serial attribute, giant snapshot URI, giant whitespace run in a notification) plus the same shapes in snapshot and delta (giant publish URI, giant base64 text, giant whitespace), each at run lengths {limit/2, limit-4096, limit+3 buffers, 2 x limit} followed by the valid remainder of the document: no panic; octets pulled <= element start + limit + buffer; non-trivial = runs longer than the limit");
+        "the three emptied bomb files regenerated as finite streams (giant serial attribute, giant snapshot URI, giant whitespace run in a notification) plus the same shapes in snapshot and delta (giant publish URI, giant base64 text, giant whitespace), each at run lengths around the limit, followed by the valid remainder of the document: no panic; octets pulled <= element start + limit + buffer; non-trivial = runs longer than the limit");
     struct Bomb { kind: Kind, name: &'static str, anchor: &'static [u8], unit: &'static [u8] }
     let bombs = [
         Bomb { kind: Kind::Notification, name: "bomb-serial", anchor: b" serial=\"", unit: b"0" },
@@ -1049,47 +1091,49 @@ fn space_hostile_bombs(ctx: &Ctx) {
         let limit = limit_at(b.kind, &lay, p, b.unit);
         let lens: Vec<u64> = if limit == HEADER_LIMIT || ctx.tier.is_thorough() {
             vec![limit / 2, limit - 4096, limit + 3 * bufcap as u64, 2 * limit]
-        } else { vec![limit - 4096, limit + 3 * bufcap as u64] };
+        } else { vec![limit + 3 * bufcap as u64] };
         for l in lens { cases.push((bi, l / b.unit.len() as u64 * b.unit.len() as u64)) }
     }
-    cases.par_iter().for_each(|&(bi, run_len)| {
+    let results: Vec<(Hostile, usize, u64, u64, String)> = cases.par_iter().map(|&(bi, run_len)| {
         let b = &bombs[bi];
         let doc = skeleton(b.kind);
         let lay = layout(&doc);
         let p = find(&doc, b.anchor) + b.anchor.len();
         let limit = limit_at(b.kind, &lay, p, b.unit);
-        let bound = lay.start[p] as u64 + limit + bufcap as u64;
         let block = block_of(b.unit);
-        let total = doc.len() as u64 + run_len;
         let h = run_hostile(b.kind, &doc[..p], b"", &block, run_len, &doc[p..], bufcap, p as u64 + 4 * limit);
-        let wit = || format!("{} {} run of {run_len} x {:?} at pos={p} ({}) then the rest of the document", b.kind.name(), b.name, String::from_utf8_lossy(b.unit), lay.class[p]);
+        let wit = format!("{} {} run of {run_len} x {:?} at pos={p} ({}) then the rest of the document", b.kind.name(), b.name, String::from_utf8_lossy(b.unit), lay.class[p]);
+        (h, lay.start[p], limit, doc.len() as u64 + run_len, wit)
+    }).collect();
+    for (&(_, run_len), (h, start, limit, total, wit)) in cases.iter().zip(&results) {
+        let bound = *start as u64 + limit + bufcap as u64;
         sp.eval();
-        if run_len > limit { sp.nontrivial(1) }
+        if run_len > *limit { sp.nontrivial(1) }
         match &h.result {
-            Err(panic) => { sp.outcome("panic"); ctx.fail("C09.hostile.nopanic", wit(), panic.clone()) }
+            Err(panic) => { sp.outcome("panic"); ctx.fail("C09.hostile.nopanic", wit.clone(), panic.clone()) }
             Ok(Ok(_)) => sp.outcome("accepted"),
             Ok(Err(_)) => sp.outcome("rejected"),
         }
         if h.cap_hit || h.pulled > bound {
-            ctx.fail("C09.hostile.bound", wit(), format!("pulled {} of {total} octets; allowed {} + {limit} + {bufcap} = {bound}; result {:?}", h.pulled, lay.start[p], h.result));
+            ctx.fail("C09.hostile.bound", wit.clone(), format!("pulled {} of {total} octets; allowed {start} + {limit} + {bufcap} = {bound}; result {:?}", h.pulled, h.result));
         }
-        sp.sample_str(|| format!("{} -> pulled {} of {total}, {}", wit(), h.pulled, match &h.result { Ok(Ok(_)) => "accepted".to_string(), Ok(Err(e)) => format!("rejected: {}", trunc(e, 60)), Err(p) => p.clone() }));
-    });
+        sp.sample_str(|| format!("{wit} -> pulled {} of {total}, {}", h.pulled, match &h.result { Ok(Ok(_)) => "accepted".to_string(), Ok(Err(e)) => format!("rejected: {}", trunc(e, 60)), Err(p) => p.clone() }));
+    }
     sp.done(true, &format!("{} bomb shapes, {} streams", bombs.len(), cases.len()));
 }
 
 fn find(hay: &[u8], needle: &[u8]) -> usize {
-    hay.windows(needle.len()).position(|w| w == needle).unwrap_or_else(|| panic!("anchor {:?} not in skeleton", String::from_utf8_lossy(needle)))
+    hay.windows(needle.len()).position(|w| w == needle).unwrap_or_else(|| panic!("anchor {:?} not in document", String::from_utf8_lossy(needle)))
 }
 
 const SUBST: [u8; 11] = [b'<', b'>', b'&', b'"', b'\'', b'/', b'=', b' ', 0x00, 0xFF, b'a'];
 
 /// Runs one finite input through the real parser; only "returns without panic" is demanded.
-fn finite_case(ctx: &Ctx, kind: Kind, input: &[u8], oc: &mut BTreeMap<&'static str, u64>, wit: impl FnOnce() -> String) -> bool {
+fn finite_case(fails: &Fails, order: u64, kind: Kind, input: &[u8], oc: &mut BTreeMap<&'static str, u64>, wit: impl FnOnce() -> String) -> bool {
     match guard(|| parse_as(kind, input)) {
         Ok(Ok(_)) => { *oc.entry("accepted").or_insert(0) += 1; true }
         Ok(Err(_)) => { *oc.entry("rejected").or_insert(0) += 1; false }
-        Err(p) => { *oc.entry("panic").or_insert(0) += 1; ctx.fail("C09.hostile.nopanic", wit(), p); false }
+        Err(p) => { *oc.entry("panic").or_insert(0) += 1; fails.push(order, "C09.hostile.nopanic", wit(), p); false }
     }
 }
 
@@ -1100,7 +1144,7 @@ fn markup_and_edges(doc: &[u8]) -> Vec<usize> {
     while i < doc.len() {
         if doc[i] == b'<' {
             let j = (i..doc.len()).find(|&k| doc[k] == b'>').unwrap_or(doc.len() - 1);
-            for k in i..=j { keep[k] = true }
+            for k in keep.iter_mut().take(j + 1).skip(i) { *k = true }
             i = j + 1;
         } else {
             let j = (i..doc.len()).find(|&k| doc[k] == b'<').unwrap_or(doc.len());
@@ -1126,69 +1170,82 @@ fn head_of(doc: &[u8], n: usize, root: &str) -> Vec<u8> {
 
 fn space_hostile_mutations(ctx: &Ctx) {
     let sp = ctx.space("hostile.captured_mutations",
-        "captured RIPE files (and lolz-notification): every listed offset x {byte := each of < > & \" ' / = SP NUL FF a (when different), truncate here, delete this byte}, parsed by the real parser with the collecting processor: returns without panic; quick = every offset of the four notification files and of the first 3 elements of delta / snapshot; thorough adds every offset of the full delta and all markup + text-node edges (8 octets) of the full snapshot; non-trivial = mutants the parser rejects");
+        "captured files under test-data/rrdp (the three emptied bomb files are skipped, see hostile.bombs): every listed offset x {byte := each of < > & \" ' / = SP NUL FF a (when different), truncate here, delete this byte}, parsed by the real parser with the collecting processor: returns without panic. quick = every offset of lolz-notification and ripe-notification and of the first 3 elements of ripe-delta / ripe-snapshot; thorough adds every offset of the other two notification files and of the full delta, and all markup + text-node edges (8 octets) of the full snapshot with the 6 markup-significant substitutions; non-trivial = mutants the parser rejects");
     let dir = format!("{}/test-data/rrdp", repo_dir());
     let thorough = ctx.tier.is_thorough();
-    let mut seeds: Vec<(String, Kind, Vec<u8>, Vec<usize>)> = Vec::new();
+    // (name, kind, bytes, offsets, substitution values)
+    let mut seeds: Vec<(String, Kind, Vec<u8>, Vec<usize>, &[u8])> = Vec::new();
     let read = |name: &str| -> Vec<u8> { std::fs::read(format!("{dir}/{name}")).unwrap_or_default() };
-    for name in ["lolz-notification.xml", "ripe-notification.xml", "ripe-notification-unsorted.xml", "ripe-notification-with-gaps.xml"] {
+    let mut notifs = vec!["lolz-notification.xml", "ripe-notification.xml"];
+    if thorough { notifs.extend(["ripe-notification-unsorted.xml", "ripe-notification-with-gaps.xml"]) }
+    for name in notifs {
         let d = read(name);
         if d.is_empty() { ctx.machinery_error(format!("captured file {name} is missing or empty")); continue }
         let all = (0..d.len()).collect();
-        seeds.push((name.to_string(), Kind::Notification, d, all));
+        seeds.push((name.to_string(), Kind::Notification, d, all, &SUBST));
     }
     for (name, kind, root) in [("ripe-delta.xml", Kind::Delta, "delta"), ("ripe-snapshot.xml", Kind::Snapshot, "snapshot")] {
         let d = read(name);
         if d.is_empty() { ctx.machinery_error(format!("captured file {name} is missing or empty")); continue }
         let head = head_of(&d, 3, root);
         let all = (0..head.len()).collect();
-        seeds.push((format!("{name}[first 3 elements]"), kind, head, all));
+        seeds.push((format!("{name}[first 3 elements]"), kind, head, all, &SUBST));
         if thorough {
-            let offs = if kind == Kind::Delta { (0..d.len()).collect() } else { markup_and_edges(&d) };
-            seeds.push((name.to_string(), kind, d, offs));
+            if kind == Kind::Delta {
+                let offs = (0..d.len()).collect();
+                seeds.push((name.to_string(), kind, d, offs, &SUBST));
+            } else {
+                let offs = markup_and_edges(&d);
+                seeds.push((name.to_string(), kind, d, offs, &SUBST[..6]));
+            }
         }
     }
-    // the emptied files are skipped on purpose (see hostile.bombs)
+    let fails = Fails::new();
     let mut bound = Vec::new();
-    for (name, kind, doc, offs) in &seeds {
+    for (si, (name, kind, doc, offs, subst)) in seeds.iter().enumerate() {
         let mut oc0 = BTreeMap::new();
-        if name != "lolz-notification.xml" && !finite_case(ctx, *kind, doc, &mut oc0, || format!("{name} unmodified")) {
+        if name != "lolz-notification.xml" && !finite_case(&fails, 0, *kind, doc, &mut oc0, || format!("{name} unmodified")) {
             ctx.machinery_error(format!("seed {name} is not accepted unmodified"));
         }
-        offs.par_chunks(64).for_each(|chunk| {
+        offs.par_chunks(32).for_each(|chunk| {
             let mut oc: BTreeMap<&'static str, u64> = BTreeMap::new();
             let mut n = 0u64; let mut rejected = 0u64;
             let mut m = doc.clone();
             for &p in chunk {
+                let order = ((si as u64) << 40) | ((p as u64) << 8);
                 let orig = doc[p];
-                for &b in &SUBST {
+                for &b in subst.iter() {
                     if b == orig { continue }
                     m[p] = b;
                     n += 1;
-                    if !finite_case(ctx, *kind, &m, &mut oc, || format!("{name} byte {p} := {b:#04x}")) { rejected += 1 }
+                    if !finite_case(&fails, order | b as u64, *kind, &m, &mut oc, || format!("{name} byte {p} := {b:#04x}")) { rejected += 1 }
                 }
                 m[p] = orig;
                 n += 1;
-                if !finite_case(ctx, *kind, &doc[..p], &mut oc, || format!("{name} truncated to {p} octets")) { rejected += 1 }
+                if !finite_case(&fails, order, *kind, &doc[..p], &mut oc, || format!("{name} truncated to {p} octets")) { rejected += 1 }
                 let mut del = Vec::with_capacity(doc.len());
                 del.extend_from_slice(&doc[..p]); del.extend_from_slice(&doc[p + 1..]);
                 n += 1;
-                if !finite_case(ctx, *kind, &del, &mut oc, || format!("{name} byte {p} deleted")) { rejected += 1 }
+                if !finite_case(&fails, order | 1, *kind, &del, &mut oc, || format!("{name} byte {p} deleted")) { rejected += 1 }
             }
             sp.evals(n); sp.nontrivial(rejected); sp.merge_outcomes(&oc);
         });
-        bound.push(format!("{name}: {} of {} offsets", offs.len(), doc.len()));
+        bound.push(format!("{name}: {} of {} offsets x {} ops", offs.len(), doc.len(), subst.len() + 2));
     }
+    fails.flush(ctx);
     sp.sample_str(|| "ripe-notification.xml byte 0 := 0x3e ('>')".into());
+    sp.sample_str(|| "ripe-delta.xml[first 3 elements] truncated to 300 octets".into());
     sp.done(true, &bound.join("; "));
 }
 
 fn space_hostile_short(ctx: &Ctx) {
     let n: u32 = ctx.tier.pick(2, 3);
     let sp = ctx.space("hostile.short_strings",
-        "every byte string of length 0..N given to all three parsers: returns without panic; non-trivial = strings at least one parser gets past the first event on (measured: error text differs from the empty input's)");
+        "every byte string of length 0..N given to all three parsers: returns without panic; non-trivial = strings on which at least one parser reports something other than it does for the empty input");
     let total: u64 = (0..=n).map(|k| 256u64.pow(k)).sum();
-    let base: Vec<String> = [Kind::Notification, Kind::Snapshot, Kind::Delta].iter().map(|k| parse_as(*k, &b""[..]).err().unwrap_or_default()).collect();
+    let kinds = [Kind::Notification, Kind::Snapshot, Kind::Delta];
+    let base: Vec<String> = kinds.iter().map(|k| parse_as(*k, &b""[..]).err().unwrap_or_default()).collect();
+    let fails = Fails::new();
     rpki_verif::engine::enumerate::par_chunks(total, 1 << 14, |lo, hi| {
         let mut oc: BTreeMap<&'static str, u64> = BTreeMap::new();
         let mut nt = 0u64;
@@ -1198,42 +1255,46 @@ fn space_hostile_short(ctx: &Ctx) {
             seq_at(256, n, idx, &mut ix);
             s.clear(); s.extend(ix.iter().map(|&i| i as u8));
             let mut differs = false;
-            for (ki, kind) in [Kind::Notification, Kind::Snapshot, Kind::Delta].into_iter().enumerate() {
+            for (ki, kind) in kinds.into_iter().enumerate() {
                 match guard(|| parse_as(kind, s.as_slice())) {
                     Ok(Ok(_)) => { *oc.entry("accepted").or_insert(0) += 1; differs = true }
                     Ok(Err(e)) => { if e != base[ki] { differs = true; *oc.entry("rejected-other-error").or_insert(0) += 1 } else { *oc.entry("rejected-as-empty").or_insert(0) += 1 } }
-                    Err(p) => { *oc.entry("panic").or_insert(0) += 1; ctx.fail("C09.hostile.nopanic", format!("{} bytes={}", kind.name(), hex(&s)), p) }
+                    Err(p) => { *oc.entry("panic").or_insert(0) += 1; fails.push(idx * 4 + ki as u64, "C09.hostile.nopanic", format!("{} bytes={}", kind.name(), hex(&s)), p) }
                 }
             }
             if differs { nt += 1 }
         }
         sp.evals(3 * (hi - lo)); sp.nontrivial(nt); sp.merge_outcomes(&oc);
     });
+    fails.flush(ctx);
     sp.sample_str(|| "bytes=3c21 ('<!') to each parser".into());
     sp.done(true, &format!("all {total} strings of length <= {n} x 3 parsers"));
 }
 
 fn space_hostile_pairs(ctx: &Ctx) {
-    let sp = ctx.space("hostile.skeleton_deviation_pairs",
-        "skeleton documents: every single substitution (11 values) / truncation at every offset (bound 1) and every pair of substitutions from {< > \" &} at two offsets (bound 2): returns without panic; non-trivial = mutants still accepted (deviation not noticed by the grammar)");
+    let stride: usize = ctx.tier.pick(8, 1);
+    let sp = ctx.space("hostile.skeleton_deviations",
+        "skeleton documents: every single substitution (11 values) / truncation at every offset (bound 1) and every pair of substitutions from {< > \" &} at two offsets (bound 2; quick: first offset on a stride of 8): returns without panic; non-trivial = mutants still accepted (deviation not noticed by the grammar)");
     let pair_vals = [b'<', b'>', b'"', b'&'];
+    let fails = Fails::new();
     let mut bound = Vec::new();
-    for kind in [Kind::Notification, Kind::Snapshot, Kind::Delta] {
+    for (ki, kind) in [Kind::Notification, Kind::Snapshot, Kind::Delta].into_iter().enumerate() {
         let doc = skeleton(kind);
         let n = doc.len();
         (0..n).into_par_iter().for_each(|p| {
             let mut oc = BTreeMap::new();
             let mut evals = 0u64; let mut acc = 0u64;
             let mut m = doc.clone();
+            let o1 = ((ki as u64) << 50) | ((p as u64) << 30);
             for &b in &SUBST {
                 if b == doc[p] { continue }
                 m[p] = b; evals += 1;
-                if finite_case(ctx, kind, &m, &mut oc, || format!("{} skeleton byte {p} := {b:#04x}", kind.name())) { acc += 1 }
+                if finite_case(&fails, o1 | b as u64, kind, &m, &mut oc, || format!("{} skeleton byte {p} := {b:#04x}", kind.name())) { acc += 1 }
             }
             m[p] = doc[p];
             evals += 1;
-            if finite_case(ctx, kind, &doc[..p], &mut oc, || format!("{} skeleton truncated to {p}", kind.name())) { acc += 1 }
-            if ctx.tier.is_thorough() || p % 4 == 0 {
+            if finite_case(&fails, o1, kind, &doc[..p], &mut oc, || format!("{} skeleton truncated to {p}", kind.name())) { acc += 1 }
+            if p % stride == 0 {
                 for &b1 in &pair_vals {
                     if b1 == doc[p] { continue }
                     m[p] = b1;
@@ -1242,19 +1303,21 @@ fn space_hostile_pairs(ctx: &Ctx) {
                         for &b2 in &pair_vals {
                             if b2 == save { continue }
                             m[q] = b2; evals += 1;
-                            if finite_case(ctx, kind, &m, &mut oc, || format!("{} skeleton byte {p} := {b1:#04x}, byte {q} := {b2:#04x}", kind.name())) { acc += 1 }
+                            if finite_case(&fails, (1 << 60) | o1 | ((q as u64) << 16) | ((b1 as u64) << 8) | b2 as u64, kind, &m, &mut oc, || format!("{} skeleton byte {p} := {b1:#04x}, byte {q} := {b2:#04x}", kind.name())) { acc += 1 }
                         }
                         m[q] = save;
                     }
                 }
+                m[p] = doc[p];
             }
             sp.evals(evals); sp.nontrivial(acc); sp.merge_outcomes(&oc);
         });
         bound.push(format!("{} skeleton ({n} octets)", kind.name()));
     }
+    fails.flush(ctx);
     sp.sample_str(|| "notification skeleton byte 0 := 0x3c, byte 1 := 0x3e".into());
     sp.done(true, &format!("bound 1 at every offset; bound 2 at {} first offsets x all later offsets x 4x4 values; {}",
-        if ctx.tier.is_thorough() { "all" } else { "every 4th" }, bound.join(", ")));
+        if stride == 1 { "all".to_string() } else { format!("every {stride}th") }, bound.join(", ")));
 }
 
 fn main() {
